@@ -164,7 +164,8 @@ def make_oracle(alg, case):
     idx = stubs.RegionIndex(alg.design_space)
     return stubs.TableOracle(idx, dom=table_from_bits(n, case["dom"]), cov=table_from_bits(n, case["cov"]),
                              pess=table_from_bits(n, case["pess"]) if "pess" in case else None,
-                             slack=stubs.expected_slack(alg), order=alg.order)
+                             slack=stubs.expected_slack(alg), order=alg.order,
+                             approx=stubs.true_slack(alg) if is_pess(case["alg"]) and case["alg"] != "EpsilonPAL" else None)
 
 
 def sset(s):
@@ -695,13 +696,9 @@ NEG_USTAR_CONES = [{"rows": [[-1, 0], [1, 2]]}, {"rows": [[-2, 1], [1, 1]]},
 
 
 def _vogp_u_star(cone):
-    """u* of the cone as the real VOGP computes it"""
-    W, order = cone_order(cone)
-    a = stubs.build("VOGP", in_data=np.array([[0.0, 0.0], [0.125, 0.375]]), out_data=np.zeros((2, W.shape[1])),
-                    order=order, epsilon=1.0,
-                    model=stubs.ScriptedModel(np.array([[0.0, 0.0], [0.125, 0.375]]), np.zeros((2, W.shape[1])),
-                                              np.ones((2, W.shape[1]))))
-    return np.asarray(a.u_star, dtype=float)
+    """u* of the cone, computed independently of the implementation (generators must not consult it)"""
+    W, _ = cone_order(cone)
+    return stubs.independent_u_star(W)
 
 
 def _rect_cover_margin(W, d, H, sv):
@@ -718,47 +715,101 @@ def _rect_cover_margin(W, d, H, sv):
     return float(r.x[-1]) if r.status == 0 else float("nan")
 
 
-def gen_slack_sensitive_case(rng, alg, cone, coverable):
-    """Boxes NARROW in the objective where u* is negative and WIDE elsewhere, the other design displaced by about
-    the slack in that objective: the candidate is robustly NOT dominated (so discarding() keeps it and
-    epsiloncovering() decides), and whether it can still be ε-covered depends on the exact slack vector ε·u* —
-    with the negative entry clipped to 0 the verdict is the opposite.  `coverable` = verdict with the true slack."""
+def gen_slack_sensitive_case(rng, alg, cone, coverable, alt="clip"):
+    """Boxes NARROW in one objective and WIDE elsewhere, the other design displaced by about the slack: the
+    candidate is robustly NOT dominated (so discarding() keeps it and epsiloncovering() decides, under the true
+    AND under the alternative slack), and whether it can still be ε-covered depends on the exact slack vector
+    ε·u* — with the alternative slack the verdict is the opposite.  `alt="clip"`: negative entries of ε·u*
+    clipped to 0 (cones whose u* has a negative entry); `alt="diag"`: ε·(1,…,1)/√m (cones whose u* is NOT the
+    diagonal: ice-cream cones, asymmetric user cones).  `coverable` = verdict with the true slack.
+    u* is computed independently of the implementation (`stubs.independent_u_star`)."""
     W, _ = cone_order(cone)
     u = _vogp_u_star(cone)
-    if u.min() >= -0.05:
-        return None
     m = len(u)
-    k0 = int(np.argmin(u))
     eps = rng.choice([0.5, 1.0, 2.0])
     sv = eps * u
-    sc = np.clip(sv, 0.0, None)
+    if alt == "clip":
+        if u.min() >= -0.05:
+            return None
+        sc = np.clip(sv, 0.0, None)
+        narrow_axes = [int(np.argmin(u))]
+    else:
+        sc = eps * np.ones(m) / np.sqrt(m)
+        if np.max(np.abs(sc - sv)) < 0.1 * eps:
+            return None
+        narrow_axes = list(np.argsort(-np.abs(sc - sv)))
     wn = np.abs(W).sum(axis=1)
-    for wide, a_, b_ in [(w_, x_, y_) for w_ in (4.0, 1.0, 0.25) for x_ in (-0.5, 0.5, -1.5, 1.5, -0.25, 0.25, 1.0, -1.0, 2.0, -2.0)
-                         for y_ in (0.0, 2.0, -2.0, 0.5, -0.5, 1.0, -1.0)]:
-        h = np.full(m, wide * eps)
-        h[k0] = eps / 2048.0
-        H = 2 * h
-        if True:
+    thr = 0.02 * eps
+    for k0 in narrow_axes[:2]:
+        for wide, a_, b_ in [(w_, x_, y_) for w_ in (4.0, 1.0, 0.25)
+                             for x_ in (-0.5, 0.5, -1.5, 1.5, 1.0, -1.0)
+                             for y_ in (0.0, 2.0, -2.0, 1.0, -1.0)]:
+            h = np.full(m, wide * eps)
+            h[k0] = eps / 2048.0
+            H = 2 * h
             d = b_ * eps * np.ones(m)
-            d[k0] = a_ * abs(sv[k0])
+            d[k0] = a_ * (abs(sv[k0]) if alt == "clip" else eps)
             mt, mc = _rect_cover_margin(W, d, H, sv), _rect_cover_margin(W, d, H, sc)
             if not (np.isfinite(mt) and np.isfinite(mc)):
                 continue
-            thr = 0.02 * eps
             if not ((mt >= thr and mc <= -thr) if coverable else (mt <= -thr and mc >= thr)):
                 continue
-            # candidate robustly not dominated by the other design (∀∀ with +slack fails)
+            # candidate robustly not dominated by the other design (∀∀ with +slack fails), for either slack
             corners = np.array(np.meshgrid(*[[-x, x] for x in H])).reshape(m, -1).T
-            dom = min(float(np.min((W @ (d + e + sv)) / wn)) for e in corners)
+            dom = max(min(float(np.min((W @ (d + e + s_)) / wn)) for e in corners) for s_ in (sv, sc))
             if dom > -thr:
                 continue
             ci = np.array([core.dyadic(rng, -4, 4, 2) for _ in range(m)])
             cj = ci + d
-            return {"kind": "placed", "shape": "slack-sensitive-" + ("covers" if coverable else "cannot"), "alg": alg,
-                    "cone": cone, "eps": float(eps), "n": 2, "S": [0, 1], "P": [],
+            return {"kind": "placed", "shape": f"slack-sensitive-{alt}-" + ("covers" if coverable else "cannot"),
+                    "alg": alg, "cone": cone, "eps": float(eps), "n": 2, "S": [0, 1], "P": [],
                     "lower": [list(map(float, ci - h)), list(map(float, cj - h))],
                     "upper": [list(map(float, ci + h)), list(map(float, cj + h))], "enabled": True}
     return None
+
+
+USTAR_OFFDIAG_CONES = [{"icecream": [30, 8]}, {"icecream": [30, 6]}, {"rows": [[1, 0], [1, 2]]},
+                       {"rows": [[2, 0], [0, 1]]}, {"rows": [[1, 0, 0], [0, 1, 0], [1, 1, 1]]}]
+
+
+def gen_twin_case(rng, alg, variant):
+    """TWIN designs 1, 2 (bitwise identical boxes, or identical lower corners with different uppers): they
+    pessimistically dominate each other, so neither is pessimistic-Pareto, and the candidate 0 — ε-dominated only
+    by the twins — has no pessimistic witness and must stay."""
+    a = core.dyadic(rng, -8, 8, 2)
+    A = ([a, a], [a + 0.5, a + 0.5])
+    T = ([a + 1.0, a + 1.0], [a + 1.5, a + 1.5])
+    T2 = T if variant == "identical" else ([a + 1.0, a + 1.0], [a + 1.75, a + 1.5])
+    n = 3
+    lower, upper = [A[0], T[0], T2[0]], [A[1], T[1], T2[1]]
+    if variant == "identical-plus-bystander":
+        lower.append([a - 20.0, a - 20.0]); upper.append([a - 19.5, a - 19.5]); n = 4
+    order = list(range(n))
+    if rng.random() < 0.5:  # which twin is reached first must not matter
+        lower[1], lower[2], upper[1], upper[2] = lower[2], lower[1], upper[2], upper[1]
+    return {"kind": "placed", "shape": "twins-" + variant, "alg": alg, "cone": "orthant2", "eps": 0.125, "n": n,
+            "S": order, "P": [], "lower": lower, "upper": upper, "enabled": True}
+
+
+def gen_twin_run_case(rng, alg="EpsilonPAL"):
+    """real run on a dataset with DUPLICATED rows (designs 1 and 2 are the same input point with the same values):
+    their posteriors, hence their displayed boxes, are identical in every round; design 0 lies below them."""
+    m = 2
+    conf = 8
+    X = [[0.0, 0.0], [0.5, 0.5], [0.5, 0.5]]
+    kw = {"conf_contraction": conf, "noise_var": 0.0625, "epsilon": 0.125, "delta": 0.05}
+    okw = {} if alg == "EpsilonPAL" else {"W": [[1, 0], [0, 1]]}
+    a_ = stubs.build(alg, in_data=X, out_data=np.zeros((3, m)),
+                     model=stubs.ScriptedModel(np.array(X), np.zeros((3, m)), np.ones((3, m))), **okw, **kw)
+    a_.round = 0
+    beta = float(np.max(np.asarray(a_.compute_beta(), dtype=float)))
+    a = core.dyadic(rng, -8, 8, 2)
+    hw = 0.25
+    sd = hw / beta
+    Y = [[a, a], [a + 1.0, a + 1.0], [a + 1.0, a + 1.0]]
+    return {"kind": "run", "shape": "twin-rows", "alg": alg, "cone": "orthant2", "eps": 0.125, "delta": 0.05, "n": 3,
+            "in_data": X, "out_data": Y, "seed": rng.randrange(10 ** 6), "rounds": 2, "noise_var": 0.0625, "conf": conf,
+            "L": [[[sd, 0.0], [0.0, sd]]] * 3, "mean_err": [[0.0, 0.0]] * 3}
 
 
 def gen_placed_multiround(rng, alg, cone, variant):
@@ -792,6 +843,14 @@ def gen_placed_cases2(seed):
         for cone in cones:
             out.append(gen_slack_sensitive_case(rng, alg, cone, True))
             out.append(gen_slack_sensitive_case(rng, alg, cone, False))
+    for cone in USTAR_OFFDIAG_CONES:  # VOGP only: VOGP_AD carries its own copy of compute_u_star
+        out.append(gen_slack_sensitive_case(rng, "VOGP", cone, True, alt="diag"))
+        out.append(gen_slack_sensitive_case(rng, "VOGP", cone, False, alt="diag"))
+    for cone in USTAR_OFFDIAG_CONES[:1] + USTAR_OFFDIAG_CONES[2:3]:
+        out.append(gen_slack_sensitive_case(rng, "VOGP_AD", cone, False, alt="diag"))
+    for alg in ("EpsilonPAL", "VOGP", "VOGP_AD"):
+        for variant in ("identical", "same-lower", "identical-plus-bystander"):
+            out.append(gen_twin_case(rng, alg, variant))
     for alg, cones in (("PaVeBaGP-IH", ["orthant2", "acute2"]), ("PaVeBaPartialGP-rect", ["orthant2"]),
                        ("VOGP", ["orthant2", "acute2", "threefacet2"]), ("EpsilonPAL", ["orthant2"]),
                        ("VOGP_AD", ["orthant2"])):
@@ -982,21 +1041,41 @@ def gen_nested_cases(seed):
     import random
 
     rng = random.Random(f"nested:{seed}")
-    return [gen_nested_case(rng, alg) for alg in ("PaVeBaGP-IH", "PaVeBaPartialGP-rect", "VOGP", "EpsilonPAL")]
+    out = [gen_nested_case(rng, alg) for alg in ("PaVeBaGP-IH", "PaVeBaPartialGP-rect", "VOGP", "EpsilonPAL")]
+    return out + [gen_twin_run_case(rng, "EpsilonPAL"), gen_twin_run_case(rng, "VOGP")]
+
+
+def _guarded_gen(ctx, fname, fn, *args):
+    """call a case generator that sizes its boxes with schedules of the code under test; a failure loses that
+    case only (reported once per family as (F))"""
+    try:
+        return fn(*args)
+    except Exception as e:
+        if not ctx.counters.get("generator_family_failed:" + fname):
+            ctx.violation("generator-family-failed:" + fname, f"a case of the structured family {fname!r} could not be "
+                          f"generated ({type(e).__name__}: {e})", {"family": fname}, kind="F")
+        ctx.count("generator_family_failed:" + fname)
+        return None
 
 
 def gen(ctx):
     rng = ctx.rng
     # structured first: every algorithm class × every table shape once
     if ctx.worker == 0:
-        for c in gen_placed_cases(ctx.seed):
-            yield c
-        for c in gen_placed_cases2(ctx.seed):
-            yield c
-        for c in gen_nested_cases(ctx.seed):
-            yield c
-        for c in gen_latefacet_cases(ctx.seed):
-            yield c
+        for fname, fam in (("placed", gen_placed_cases), ("placed2", gen_placed_cases2), ("nested", gen_nested_cases),
+                           ("latefacet", gen_latefacet_cases)):
+            # a family whose generator fails (it may call constructors / schedules of the code under test to size
+            # its boxes) is skipped alone; the other families still run
+            try:
+                cases = fam(ctx.seed)
+            except Exception as e:
+                ctx.count("generator_family_failed:" + fname)
+                ctx.violation("generator-family-failed:" + fname, f"the structured family {fname!r} could not be "
+                              f"generated ({type(e).__name__}: {e}); the other families still run",
+                              {"family": fname}, kind="F")
+                cases = []
+            for c in cases:
+                yield c
         for alg in TABLE_ALGS:
             for _ in range(2):
                 yield gen_table_case(rng, alg)
@@ -1014,12 +1093,13 @@ def gen(ctx):
         for alg in ("PaVeBaGP-DE", "PaVeBa", "PaVeBaPartialGP-ell"):
             for scenario in ("dom-no", "dom-yes", "cov-yes"):
                 for _ in range(2 if alg != "PaVeBaPartialGP-ell" else 1):
-                    c = gen_ellcorr_case(rng, alg, scenario)
+                    c = _guarded_gen(ctx, "ellcorr", gen_ellcorr_case, rng, alg, scenario)
                     if c is not None:
                         yield c
     for _ in range(ctx.n(0, 300)):
-        c = gen_ellcorr_case(rng, rng.choice(["PaVeBaGP-DE", "PaVeBa", "PaVeBaPartialGP-ell"]),
-                             rng.choice(["dom-no", "dom-yes", "cov-yes"]))
+        c = _guarded_gen(ctx, "ellcorr", gen_ellcorr_case, rng,
+                         rng.choice(["PaVeBaGP-DE", "PaVeBa", "PaVeBaPartialGP-ell"]),
+                         rng.choice(["dom-no", "dom-yes", "cov-yes"]))
         if c is not None:
             yield c
     for _ in range(ctx.n(150, 6000)):
@@ -1736,7 +1816,7 @@ def exact_tables(ctx, alg, case, active, want_pess, cov_pairs):
     regs = alg.design_space.confidence_regions
     n = len(regs)
     W = np.asarray(alg.order.ordering_cone.W, dtype=float)
-    sl = stubs.expected_slack(alg)
+    sl = stubs.true_slack(alg)  # ε·u* with u* computed independently of the code
     Wq, act = core.qmat(W), core.nats(active)
     wn = _wnorm(W)
 
